@@ -264,6 +264,12 @@ def _cases(tier, rng):
         nr, nc = rng.randrange(1, 7), rng.randrange(1, 7)
         table = [[rng.choice([1, 2.5, 'x', True, sh.EMPTY, 'y', -3]) for _ in range(nc)] for _ in range(nr)]
         out.append(('index', table, rng.randrange(0, nr + 2), rng.randrange(0, nc + 2)))
+    # INDEX(vector, k): a single index on a row or a column vector, every position incl. the last one and one beyond
+    for k in range(1, 7):
+        cells = [rng.choice([1, 2.5, 'x', True, 'y', -3]) for _ in range(k)]
+        for table in ([cells], [[v] for v in cells]):
+            for i in range(1, k + 2):
+                out.append(('index1', table, i))
     for _ in range(n // 2):
         nr, nc = rng.randrange(1, 7), rng.randrange(1, 7)
         approx = rng.random() < 0.4
@@ -312,6 +318,13 @@ def _check(case):
             return _check_match(case)
         if case[0] == 'index':
             return _check_index(case)
+        if case[0] == 'index1':
+            from formulas.tokens.operand import REF
+            _, table, i = case
+            flat = [v for row in table for v in row]
+            want = flat[i - 1] if i <= len(flat) else REF
+            got = _val(_F()['INDEX'](_A(table), i))
+            return None if _same(got, want) else 'INDEX(%r, %d) = %r, expected %r' % (table, i, got, want)
         if case[0] == 'lookup':
             return _check_lookup(case[1:])
         return _check_crit(case)
@@ -494,6 +507,39 @@ class _TablesT(NpArrT):
 
 for _nr, _nc in ((1, 1), (2, 3), (3, 2)):
     _index_contract(_nr, _nc)
+
+
+def _index_vector_contract(nr, nc):
+    """INDEX(vector, n): a single index addresses a row or a column vector along its only free dimension."""
+    n = nr * nc
+    c = Contract('formulas.functions.look:_index',
+                 dict(arrays=ConstT(None), row_num=OneOf(IntT(-2, n + 2), ErrT()), col_num=ConstT(None),
+                      area_num=ConstT(1), is_reference=OneOf(ConstT(False), ConstT(True)), is_array=ConstT(False)),
+                 'C19', name='_index[%dx%d vector; single index]' % (nr, nc), use=[])
+    c.params['arrays'] = _TablesT(nr, nc)
+    CONTRACTS.append(c)
+
+    @c.ensures('element-at-the-position-REF-beyond-the-end-VALUE-for-negative', 'P')
+    def _(arrays, row_num, result):
+        from formulas.tokens.operand import XlError
+        if isinstance(row_num, XlError):
+            return result is row_num
+        t = arrays[0]
+        if row_num < 0:
+            return result is _VALUE
+        if row_num > n:
+            return result is _REF
+        k = row_num - 1 if row_num > 0 else 0           # 0: the whole vector, whose first element this scalar kernel returns
+        return same_object(result, t[0, k] if nr == 1 else t[k, 0])
+
+    @c.canary('canary:never-REF')
+    def _(result):
+        return result is not _REF
+    return c
+
+
+for _nr, _nc in ((1, 1), (1, 3), (3, 1), (1, 4)):
+    _index_vector_contract(_nr, _nc)
 
 
 # LOOKUP / VLOOKUP / HLOOKUP kernel: what INDEX of MATCH returns (xmatch's body is inlined: one proof over both)
